@@ -37,7 +37,13 @@ def main():
         return 2
     if hasattr(eng, "for_property"):
         eng = eng.for_property(prop)
-    return report.check_main(eng, prop, TIERS[prop], argv)
+    from simkit import lanes
+
+    lanes.top_scratch()
+    try:
+        return report.check_main(eng, prop, TIERS[prop], argv)
+    finally:
+        lanes.remove_scratch()
 
 
 if __name__ == "__main__":
